@@ -61,11 +61,26 @@ type codecCase struct {
 }
 
 func codecs() []codecCase {
+	cs := baseCodecs()
+	if gen.Thorough() {
+		// every non-default option of the snappy codec in every family (the quick tier has Better in both framings here
+		// and all four levels x both framings in `cfg`)
+		cs = append(cs,
+			codecCase{"snappy-best", &snappy.Codec{Compression: snappy.BestCompression}},
+			codecCase{"snappy-best-unframed", &snappy.Codec{Compression: snappy.BestCompression, Framing: snappy.Unframed}},
+			codecCase{"snappy-faster-unframed", &snappy.Codec{Compression: snappy.FasterCompression, Framing: snappy.Unframed}})
+	}
+	return cs
+}
+
+func baseCodecs() []codecCase {
 	return []codecCase{
 		{"gzip", &gzip.Codec{}},
 		{"snappy", &snappy.Codec{}},
 		{"snappy-unframed", &snappy.Codec{Framing: snappy.Unframed}},
 		{"snappy-faster", &snappy.Codec{Compression: snappy.FasterCompression}},
+		{"snappy-better", &snappy.Codec{Compression: snappy.BetterCompression}},
+		{"snappy-better-unframed", &snappy.Codec{Compression: snappy.BetterCompression, Framing: snappy.Unframed}},
 		{"lz4", &lz4.Codec{}},
 		{"zstd", &zstd.Codec{}},
 		{"global-gzip", compress.Gzip.Codec()},
@@ -82,9 +97,23 @@ func payload(r *rand.Rand, kind, n int) []byte {
 	switch kind {
 	case 0: // incompressible
 		r.Read(b)
-	case 1: // highly compressible
-		for i := range b {
-			b[i] = byte(i / 1024)
+	case 1: // highly compressible: long runs, all zeros, a short period, repeated structured lines — inputs on which an
+		// encoder finds long and repeated matches (where the S2 extensions of the snappy format would show: C16-m8)
+		switch r.Intn(4) {
+		case 0:
+			for i := range b {
+				b[i] = byte(i / 1024)
+			}
+		case 1: // zeros
+		case 2:
+			for i := range b {
+				b[i] = "abc"[i%3]
+			}
+		default:
+			p := 0
+			for i := 0; p < n; i++ {
+				p += copy(b[p:], fmt.Sprintf("{\"id\":%d,\"topic\":\"orders\",\"partition\":%d,\"payload\":\"xxxxxxxxxxxxxxxxxxxxxxxxxxxxxxxx\"}\n", i, i%12))
+			}
 		}
 	default: // text-like
 		words := []string{"kafka", "record", "batch", "offset", "0123456789", "\x82SNAPPY\x00", "\x00\x00\x00\x01"}
@@ -312,9 +341,30 @@ func decompressFrom(c compress.Codec, source io.Reader, dst func() int) ([]byte,
 	defer r.Close()
 	var res []byte
 	var ns []int
+	k := 0
 	for {
-		buf := make([]byte, dst())
+		// the caller's buffer is a PREFIX of a larger array every other call (len(p) < cap(p): buf[:n] slicing,
+		// io.LimitedReader, scratch arrays); the spare capacity is filled with a sentinel that Read must not touch
+		want := dst()
+		spare := 0
+		if k%2 == 1 {
+			spare = []int{1, 100, 4096, 70000}[(k/2)%4]
+		}
+		k++
+		backing := make([]byte, want+spare)
+		for i := want; i < len(backing); i++ {
+			backing[i] = 0xA5
+		}
+		buf := backing[:want]
 		n, err := r.Read(buf)
+		if n < 0 || n > len(buf) {
+			return res, append(ns, n), fmt.Errorf("Read(p) with len(p)=%d cap(p)=%d returned n=%d: io.Reader contract violated", len(buf), cap(buf), n)
+		}
+		for i := want; i < len(backing); i++ {
+			if backing[i] != 0xA5 {
+				return res, append(ns, n), fmt.Errorf("Read(p) with len(p)=%d cap(p)=%d wrote beyond len(p)", len(buf), cap(buf))
+			}
+		}
 		res = append(res, buf[:n]...)
 		ns = append(ns, n)
 		if err != nil {
@@ -637,7 +687,7 @@ func configs(r *rand.Rand) {
 	kinds := []string{"gzip", "snappy", "zstd", "lz4"}
 	specs := configSpecs()
 	for _, kind := range kinds {
-		p := payload(r, 2, 40000+r.Intn(30000))
+		p := payload(r, 1+r.Intn(2), 40000+r.Intn(30000))
 		want := map[string][]byte{}
 		vals := map[string]compress.Codec{}
 		for _, sp := range specs[kind] {
@@ -707,7 +757,7 @@ func readAllBounded(r io.Reader) ([]byte, error) {
 // stream must decode to its own payload.
 func stress(r *rand.Rand, cs []codecCase, G, iters int) {
 	// wall-clock budget per codec value: on a loaded machine fewer iterations are run instead of timing out
-	const budget = 3 * time.Second
+	const budget = 2 * time.Second
 	for _, cc := range cs {
 		ps := make([][]byte, 4)
 		streams := make([][]byte, 4)
@@ -793,7 +843,15 @@ func main() {
 
 	for round := 0; round < rounds; round++ {
 		if stressOnly {
-			stress(r, cs, 32, 120)
+			// the race build: the non-default snappy levels share the pools of the default one and differ only in the
+			// block encoder installed after Get: not repeated here
+			var raceCs []codecCase
+			for _, cc := range baseCodecs() {
+				if !strings.Contains(cc.name, "better") {
+					raceCs = append(raceCs, cc)
+				}
+			}
+			stress(r, raceCs, 32, 120)
 			continue
 		}
 		// --- xw: writer block structure
